@@ -51,7 +51,7 @@ func (m *verifC06Machine) loop(qi int, op *vs.Op, storeLevelFailed bool) {
 		m.loops++
 	}
 	q := m.panel[qi]
-	s2 := state.NewStateStore(nil)
+	s2 := verifC06NewStore(f)
 	for _, o := range m.ops[:len(m.ops)-1] {
 		vs.Apply(s2, o)
 	}
